@@ -174,6 +174,10 @@ def jnp_sum(I, x, axis=None):
     _used("A6: finite sums are linear and extensional; sum over an empty axis is 0; sum of a scalar is itself")
     if isinstance(x, (SReal,)):
         if x.vec:
+            if axis is not None:
+                # a sum along ONE axis of an array of unknown rank is not the total (they coincide only for rank 1)
+                ax = zint(axis) if isinstance(axis, (int, SInt)) else z3.IntVal(0)
+                return SReal(I.ctx.fn("sum_axis", z3.RealSort(), z3.IntSort(), z3.RealSort())(x.t, ax), vec=True)
             return SReal(I.ctx.fn("sum_all", z3.RealSort(), z3.RealSort())(x.t))
         return x
     if isinstance(x, (int, float)):
